@@ -261,11 +261,26 @@ def run(spec, out):
             import contextlib
             import io
             from measured import cli
-            with contextlib.redirect_stdout(io.StringIO()):
+            if rng.random() < 0.3:
+                # the program works in natural units: an equivalence across dimensions (c = 1: a second is 299792458 metres;
+                # or a mass is an energy) is a legal public declaration - equate never checks dimensions
+                a_, b_, k_ = rng.choice([("second", "meter", 299792458), ("gram", "joule", 89875517873681.764), ("kelvin", "joule", 1.380649e-23), ("meter", "second", 3.3e-9)])
                 try:
-                    cli.print_quantity(f"{rng.choice([1, 5, 2.5])} " + rng.choice(["mile", "g-force", "BTU", "m^2", "lbf/in.^2", "hp", "acre", "kg", "J/s", "ft.^3", "N", "W", "cal"]))
-                except SystemExit:
-                    pass
+                    Unit._by_name[a_].equals(k_ * Unit._by_name[b_])
+                    count("cross_dimension_equivalences_declared")
+                except Exception as e:
+                    count(f"cross_dimension_equivalence_refused/{type(e).__name__}")
+            texts = ["mile", "g-force", "BTU", "m^2", "lbf/in.^2", "hp", "acre", "kg", "J/s", "ft.^3", "N", "W", "cal"]
+            texts += [f"{s_}^{e_}" for s_ in ("s", "m", "g", "K", "J", "sr", "rad", "ft.") for e_ in (2, 3, 5, -1, -2, 7)]
+            with contextlib.redirect_stdout(io.StringIO()):
+                for _ in range(3):
+                    try:
+                        cli.print_quantity(f"{rng.choice([1, 5, 2.5])} " + rng.choice(texts))
+                        count("command_line_listings")
+                    except SystemExit:
+                        pass
+                    except Exception as e:
+                        count(f"command_line_raised/{type(e).__name__}")
         elif op == "render_other":
             # every other rendering that takes a unit apart: the unit's dimension and prefix, measurements (all
             # uncertainty styles), levels and logarithmic units, as text, format(), pretty and MathML
